@@ -30,7 +30,7 @@ NODES = {
     "pxA": (7, "ProxyBlock"), "syA1": (8, "Symbol"), "syA2": (9, "Symbol"), "modB": (12, "Module"), "secB": (13, "Section"), "biB": (14, "ByteInterval"),
     "cbB": (15, "CodeBlock"), "syB": (18, "Symbol"), "biC": (24, "ByteInterval"),
 }
-TARGETS = ["cbA", "dbA", "pxA", "syA1", "secA", "biA", "modA", "ir", "unknown"]
+TARGETS = ["cbA", "dbA", "pxA", "syA1", "secA", "biA", "modA", "ir", "unknown", "nil"]
 KIND_OF = {k: v[1] for k, v in NODES.items()}
 REFS = ["referent", "entry_point", "edge_source", "edge_target", "const_symbol", "addr_symbol1", "addr_symbol2", "late_symbol"]
 ALLOWED = {
@@ -43,6 +43,8 @@ ALLOWED = {
 def ub(name):
     if name == "unknown":
         return UUID(int=699).bytes
+    if name == "nil":
+        return bytes(16)                  # the nil UUID: names no node of the file
     return U(NODES[name][0]).bytes
 
 
@@ -208,7 +210,7 @@ def check_refs_identity(ir):
 # C09
 # ---------------------------------------------------------------------------
 def _expect_ok(ref, tgt):
-    return tgt != "unknown" and KIND_OF[tgt] in ALLOWED[ref]
+    return tgt not in ("unknown", "nil") and KIND_OF[tgt] in ALLOWED[ref]
 
 
 def run_refs(choice):
@@ -289,7 +291,7 @@ def refs2(r1: int, t1: int, r2: int, t2: int) -> bool:
     return done()
 
 
-AUX_SHAPES = ["UUID", "Offset", "sequence<UUID>", "mapping<UUID,Offset>", "set<UUID>"]
+AUX_SHAPES = ["UUID", "Offset", "sequence<UUID>", "mapping<UUID,Offset>", "set<UUID>", "variant<string,UUID>", "sequence<variant<Offset,bool>>"]
 
 
 def aux_refs(level: int, shape: int, t: int, disp: int) -> bool:
@@ -308,7 +310,8 @@ def aux_refs(level: int, shape: int, t: int, disp: int) -> bool:
         d8 = bytes(8)
         one = (1).to_bytes(8, "little")
         data = {"UUID": u, "Offset": u + d8, "sequence<UUID>": (2).to_bytes(8, "little") + u + u,
-                "mapping<UUID,Offset>": one + u + u + d8, "set<UUID>": one + u}[sh]
+                "mapping<UUID,Offset>": one + u + u + d8, "set<UUID>": one + u,
+                "variant<string,UUID>": one + u, "sequence<variant<Offset,bool>>": one + bytes(8) + u + d8}[sh]
         msg = base_message(aux=[(lv, "t", sh, data)])
         why = None
         try:
@@ -325,6 +328,10 @@ def aux_refs(level: int, shape: int, t: int, disp: int) -> bool:
             want_node = node is not None
             if sh == "UUID":
                 got = [v]
+            elif sh == "variant<string,UUID>":
+                got = [v.val]
+            elif sh == "sequence<variant<Offset,bool>>":
+                got = [v[0].val.element_id]
             elif sh == "Offset":
                 got = [v.element_id]
             elif sh == "sequence<UUID>":
@@ -349,6 +356,10 @@ def aux_refs(level: int, shape: int, t: int, disp: int) -> bool:
                 nodeb = treeb.get(UUID(bytes=u))
                 if sh == "UUID":
                     gotb = [vb]
+                elif sh == "variant<string,UUID>":
+                    gotb = [vb.val]
+                elif sh == "sequence<variant<Offset,bool>>":
+                    gotb = [vb[0].val.element_id]
                 elif sh == "Offset":
                     gotb = [vb.element_id]
                 elif sh in ("sequence<UUID>", "set<UUID>"):
